@@ -72,6 +72,24 @@ Proof.
   cbn [length]. replace (i <? 0)%nat with false by reflexivity. rewrite Nat.sub_0_r. reflexivity.
 Qed.
 
+(* the loop of XorOp computes the index-based description *)
+Lemma xor_op_is_spec : forall b key, xor_op b key = xor_spec b key.
+Proof.
+  intros b key. destruct key as [|c key']; [apply xor_empty_key|].
+  assert (Hk : c :: key' <> []) by discriminate.
+  change (xor_spec b (c :: key')) with
+    (map (fun '(i, x) => Z.lxor x (nth (i mod length (c :: key'))%nat (c :: key') 0)) (combine (seq 0 (length b)) b)).
+  revert Hk. generalize (c :: key'). intros key Hk.
+  set (f := fun '(i, x) => Z.lxor x (nth (i mod length key)%nat key 0)).
+  apply nth_ext with (d := 0) (d' := 0).
+  - rewrite xor_length, map_length, combine_length, seq_length. lia.
+  - intros n Hn. rewrite xor_length in Hn. rewrite xor_op_nth by assumption.
+    rewrite (nth_indep (map f (combine (seq 0 (length b)) b)) 0 (f (0%nat, 0)))
+      by (rewrite map_length, combine_length, seq_length; lia).
+    rewrite map_nth, combine_nth by (rewrite seq_length; reflexivity).
+    rewrite seq_nth by exact Hn. reflexivity.
+Qed.
+
 (* ---- the share ------------------------------------------------------------- *)
 Lemma fill_shared_length : forall old bytes,
   length old = share_size -> length (fill_shared old bytes) = share_size.
@@ -93,6 +111,28 @@ Lemma fill_shared_short : forall old bytes,
   (length bytes <= share_size)%nat -> fill_shared old bytes = bytes ++ skipn (length bytes) old.
 Proof. intros old bytes L. unfold fill_shared. rewrite firstn_all2 by lia. reflexivity. Qed.
 
+(* ... so that tail is exactly the previous one (the "stale tail") *)
+Lemma stale_tail_kept : forall old bytes,
+  (length bytes <= share_size)%nat ->
+  firstn (length bytes) (fill_shared old bytes) = bytes /\
+  skipn (length bytes) (fill_shared old bytes) = skipn (length bytes) old.
+Proof.
+  intros old bytes L. rewrite fill_shared_short by exact L. split.
+  - rewrite firstn_app, Nat.sub_diag, firstn_all. cbn [firstn]. apply app_nil_r.
+  - rewrite skipn_app, Nat.sub_diag, skipn_all. reflexivity.
+Qed.
+
+(* the stale tail matters: with a short secret, previous shares that differ behind it give
+   different new shares (this is why agreement must be proved as an invariant of the whole history) *)
+Lemma stale_tail_matters : forall old1 old2 bytes,
+  (length bytes <= share_size)%nat ->
+  skipn (length bytes) old1 <> skipn (length bytes) old2 ->
+  fill_shared old1 bytes <> fill_shared old2 bytes.
+Proof.
+  intros old1 old2 bytes L D E. rewrite !fill_shared_short in E by exact L.
+  apply app_inv_head in E. contradiction.
+Qed.
+
 Lemma zlist_eqb_refl : forall l, zlist_eqb l l = true.
 Proof. induction l as [|x l IH]; [reflexivity|]. cbn. rewrite Z.eqb_refl, IH. reflexivity. Qed.
 
@@ -104,21 +144,32 @@ Proof. intros [|x p] log H; [congruence|reflexivity]. Qed.
 
 (* ---- the key state machine --------------------------------------------------- *)
 Ltac ands := repeat match goal with |- _ /\ _ => split end.
+
 Section Agreement.
   Variables priv point : Type.
   Variable pub : priv -> point.
   Variable dh : priv -> point -> list Z.
   (* the ONLY assumption about the key agreement: commutativity (crypto/elliptic P-521) *)
   Hypothesis dh_comm : forall a b, dh a (pub b) = dh b (pub a).
+  (* false = the code as it is; true = next() before the fix 'rekey-merged-into-batch' *)
+  Variable merge : bool.
 
   Notation state := (st priv point).
-  Notation step := (step pub dh).
-  Notation run := (run pub dh).
+  Notation step := (step pub dh merge).
+  Notation run := (run pub dh merge).
+  Notation safe := (safe pub dh merge).
+  Notation settled := (settled pub).
+
+  (* whatever the length of the ECDH output (shorter than the share: the stale tail stays), two
+     ends that start from EQUAL previous shares compute equal new shares *)
+  Lemma stale_tail_harmless : forall old_c old_s a b,
+    old_c = old_s -> fill_shared old_c (dh a (pub b)) = fill_shared old_s (dh b (pub a)).
+  Proof. intros old_c old_s a b E. rewrite E, dh_comm. reflexivity. Qed.
 
   Definition synced_with (C : client priv point) (S : server priv) : Prop :=
     c_share C = s_share S /\ c_pub C = pub (s_priv S).
 
-  (* the invariant of every lossless history, phase by phase *)
+  (* the invariant of every admissible history, phase by phase *)
   Definition inv (s : state) : Prop :=
     let C := cl s in
     let S := sv s in
@@ -154,18 +205,18 @@ Section Agreement.
     end.
 
   Lemma inv_init : forall k0 s0, inv (init pub k0 s0).
-  Proof. intros. unfold inv, init. cbn. repeat split; intros; discriminate. Qed.
+  Proof. intros. unfold inv, init. cbn. ands; try reflexivity. discriminate. Qed.
 
   Local Opaque zero_share fill_shared xor_op is_synced.
 
-  Lemma inv_step : forall e s, lossless_event e = true -> inv s -> inv (step e s).
+  Lemma inv_step : forall e s, ok_event merge e s = true -> inv s -> inv (step e s).
   Proof.
     intros e [[cp cpb cs cn] [sr sp ss] up dn w cseen sseen] L I.
     unfold inv in I. cbn [cl sv upw dnw waiting c_next c_share c_pub c_priv s_reg s_priv s_share] in I.
     destruct up as [m|]; destruct dn as [d|]; try contradiction.
     - (* request in flight *)
       destruct I as [Hw I]. subst w.
-      destruct e; try discriminate L; unfold inv; cbn; try (split; [reflexivity|]; exact I).
+      destruct e; unfold inv; cbn; try (split; [reflexivity|]; exact I).
       + (* RekeyRecv *)
         unfold srv_handle. cbn.
         destruct sr.
@@ -177,68 +228,96 @@ Section Agreement.
              rewrite zlist_eqb_refl. cbn. split; [reflexivity|]. intros _. split; [exact Hpb|reflexivity].
           -- contradiction.
         * destruct m as [pb|body|pb under|body under]; cbn.
-          -- destruct I as [_ [Hp [Hz Hn]]]. subst pb cs cn. split; [reflexivity|].
-             split; [reflexivity|]. split; [reflexivity|]. intros _. split; reflexivity.
+          -- destruct I as [_ [Hp [Hz Hn]]]. subst pb cs cn. ands; try reflexivity. intros _. split; reflexivity.
           -- split; reflexivity.
           -- split; reflexivity.
           -- contradiction.
       + (* WriteFail *)
-        split; [reflexivity|]. split; [reflexivity|].
+        ands; try reflexivity.
         destruct m as [pb|body|pb under|body under].
-        * destruct I as [F _]. intros H. cbn in H. congruence.
+        * destruct I as [F _]. cbn. intros HH. congruence.
         * destruct I as [_ Hs]. exact Hs.
         * destruct I as [k [_ [_ [_ Hs]]]]. exact Hs.
         * contradiction.
+      + (* ReplyLost: admissible only when no announcement is pending *)
+        unfold ok_event, harmful_loss in L. cbn in L. rewrite orb_false_r in L. apply negb_true_iff in L.
+        ands; try reflexivity.
+        * destruct cn; [discriminate L|reflexivity].
+        * destruct m as [pb|body|pb under|body under].
+          -- destruct I as [F _]. cbn. intros HH. congruence.
+          -- destruct I as [_ Hs]. exact Hs.
+          -- destruct I as [k [_ [_ [_ Hs]]]]. exact Hs.
+          -- contradiction.
       + (* Forget *)
         split; [reflexivity|].
         destruct m as [pb|body|pb under|body under].
         * destruct I as [_ I]. split; [reflexivity|exact I].
-        * destruct I as [Hn _]. split; [exact Hn|]. intros H; discriminate H.
-        * destruct I as [k [Hn [Hp [Hu _]]]]. exists k. repeat split; try assumption; discriminate.
+        * destruct I as [Hn _]. split; [exact Hn|]. discriminate.
+        * destruct I as [k [Hn [Hp [Hu _]]]]. exists k. ands; try assumption. discriminate.
         * contradiction.
     - (* reply in flight *)
       destruct I as [Hw I]. subst w.
-      destruct e; try discriminate L; unfold inv; cbn; try (split; [reflexivity|]; exact I).
+      destruct e; unfold inv; cbn; try (split; [reflexivity|]; exact I).
       + (* HelloReply *)
         destruct d as [pb| |body]; cbn; try (split; [reflexivity|]; exact I).
         destruct I as [Hz [Hn Hs]]. subst cs cn. unfold key_check_sync, key_session_sync. cbn.
-        rewrite is_synced_zero. cbn. split; [reflexivity|]. split; [reflexivity|].
+        rewrite is_synced_zero. cbn. ands; try reflexivity.
         intros Hr. destruct (Hs Hr) as [Hp Hsh]. subst pb. unfold synced_with. cbn. split; [|reflexivity].
         rewrite Hsh. rewrite dh_comm. reflexivity.
       + (* ReplyRecv *)
         destruct d as [pb| |body]; cbn; try (split; [reflexivity|]; exact I).
         unfold key_check_sync. cbn.
         destruct cn as [k|]; cbn.
-        * split; [reflexivity|]. split; [reflexivity|]. intros Hr. destruct (I Hr) as [Hp Hsh].
+        * ands; try reflexivity. intros Hr. destruct (I Hr) as [Hp Hsh].
           unfold synced_with. cbn. split; [|exact Hp]. rewrite Hsh, Hp. rewrite dh_comm. reflexivity.
-        * split; [reflexivity|]. split; [reflexivity|]. exact I.
+        * ands; try reflexivity. exact I.
+      + (* ReplyLost *)
+        unfold ok_event, harmful_loss in L. cbn in L. apply negb_true_iff in L. apply orb_false_iff in L. destruct L as [Ln Ld].
+        destruct cn; [discriminate Ln|]. ands; try reflexivity.
+        destruct d as [pb| |body].
+        * discriminate Ld.
+        * cbn. intros HH. congruence.
+        * exact I.
       + (* Forget *)
         split; [reflexivity|].
         destruct d as [pb| |body].
-        * destruct I as [Hz [Hn _]]. repeat split; try assumption; discriminate.
+        * destruct I as [Hz [Hn _]]. ands; try assumption. discriminate.
         * reflexivity.
-        * destruct cn; intros HH; discriminate HH.
+        * destruct cn; discriminate.
       + (* Reregister *)
         destruct d as [pb| |body]; cbn; try (split; [reflexivity|]; exact I).
         unfold send, key_session_generate, key_check_sync. cbn.
-        split; [reflexivity|]. split; [exact I|]. split; [reflexivity|]. split; [reflexivity|].
+        ands; try reflexivity; try exact I.
         destruct cn; reflexivity.
     - (* idle *)
       destruct I as [Hw [Hn Hs]]. subst w cn.
-      destruct e; try discriminate L; unfold inv; cbn; try (ands; try reflexivity; exact Hs).
+      destruct e; unfold inv; cbn; try (ands; try reflexivity; exact Hs).
       + (* Hello *)
         destruct sr; cbn; ands; try reflexivity; try exact Hs.
       + (* RekeySend *)
+        split; [reflexivity|]. exists k. ands; try reflexivity. exact Hs.
+      + (* BatchSend: admissible only when the announcement is not merged *)
+        cbn in L. apply negb_true_iff in L. rewrite L. cbn.
         split; [reflexivity|]. exists k. ands; try reflexivity. exact Hs.
       + (* Forget *)
         ands; try reflexivity. discriminate.
   Qed.
 
-  Lemma inv_run : forall h s, lossless h = true -> inv s -> inv (run h s).
+  Lemma inv_run : forall h s, safe h s = true -> inv s -> inv (run h s).
   Proof.
     induction h as [|e h IH]; intros s L I; [exact I|].
-    cbn in L. apply andb_true_iff in L. destruct L as [Le Lh].
-    cbn. apply IH; [exact Lh|]. apply inv_step; assumption.
+    cbn [Keys.safe] in L. apply andb_true_iff in L. destruct L as [Le Lh].
+    unfold Keys.run. cbn [fold_left]. apply IH; [exact Lh|]. apply inv_step; assumption.
+  Qed.
+
+  Lemma lossless_event_ok : forall e (s : state), lossless_event merge e = true -> ok_event merge e s = true.
+  Proof. intros e s H. destruct e; try reflexivity; try discriminate H. exact H. Qed.
+
+  Lemma lossless_safe : forall h s, lossless merge h = true -> safe h s = true.
+  Proof.
+    induction h as [|e h IH]; intros s L; [reflexivity|].
+    cbn [lossless forallb] in L. apply andb_true_iff in L. destruct L as [Le Lh].
+    cbn [Keys.safe]. rewrite (lossless_event_ok e s Le). cbn. apply IH. exact Lh.
   Qed.
 
   Lemma inv_idle_agree : forall s,
@@ -252,10 +331,12 @@ Section Agreement.
     - destruct I as [_ [Hn Hs]]. destruct (Hs R) as [A B]. auto.
   Qed.
 
-  (* after ANY lossless history from the initial state, whenever the client is between two
-     exchanges and the server knows it, both ends hold the same share *)
-  Theorem share_agree_lossless : forall h k0 s0,
-    lossless h = true ->
+  (* MAIN THEOREM.  After ANY history from the initial state (handshakes, re-keys, traffic, write
+     failures, the server forgetting the client, re-registrations, replies lost while no key
+     announcement is pending), whenever the client is between two exchanges and the server knows
+     it, both ends hold the same share and no re-key is pending. *)
+  Theorem share_agree_safe : forall h k0 s0,
+    safe h (init pub k0 s0) = true ->
     let s := run h (init pub k0 s0) in
     waiting s = false -> s_reg (sv s) = true ->
     c_share (cl s) = s_share (sv s) /\ c_next (cl s) = None.
@@ -264,14 +345,18 @@ Section Agreement.
     destruct (inv_idle_agree s (inv_run h _ L (inv_init k0 s0)) W R) as [A [B _]]. auto.
   Qed.
 
-  (* a state in which the two ends agree and nothing is in flight *)
-  Definition settled (s : state) : Prop :=
-    waiting s = false /\ upw s = None /\ dnw s = None /\ s_reg (sv s) = true /\
-    c_next (cl s) = None /\ c_share (cl s) = s_share (sv s) /\ c_pub (cl s) = pub (s_priv (sv s)).
+  (* the same with the state-independent condition: no reply is lost *)
+  Theorem share_agree_lossless : forall h k0 s0,
+    lossless merge h = true ->
+    let s := run h (init pub k0 s0) in
+    waiting s = false -> s_reg (sv s) = true ->
+    c_share (cl s) = s_share (sv s) /\ c_next (cl s) = None.
+  Proof. intros h k0 s0 L. apply share_agree_safe. apply lossless_safe. exact L. Qed.
 
   Lemma settled_inv : forall s, settled s -> inv s.
   Proof.
-    intros s [W [U [D [R [N [A P]]]]]]. unfold inv. rewrite U, D. repeat split; assumption.
+    intros s [W [U [D [R [N [A P]]]]]]. unfold inv. rewrite U, D. ands; try assumption.
+    intros _. split; assumption.
   Qed.
 
   Lemma inv_settled : forall s, inv s -> waiting s = false -> s_reg (sv s) = true -> settled s.
@@ -280,26 +365,31 @@ Section Agreement.
     unfold inv in I. destruct (upw s) as [m|] eqn:U; destruct (dnw s) as [d|] eqn:D; try contradiction.
     - destruct I as [Hw _]. congruence.
     - destruct I as [Hw _]. congruence.
-    - unfold settled. rewrite U, D. repeat split; assumption.
+    - unfold Keys.settled. rewrite U, D. ands; try assumption; reflexivity.
   Qed.
 
   (* handshake: any client pair, any server pair, any length of the ECDH output *)
   Theorem share_agree_handshake : forall k0 s0 k q,
     let s := run [Hello k; RekeyRecv q; HelloReply] (init pub k0 s0) in
-    settled s /\ c_share (cl s) = fill_shared zero_share (dh k (pub s0)).
+    settled s /\
+    c_share (cl s) = fill_shared zero_share (dh k (pub s0)) /\
+    s_share (sv s) = fill_shared zero_share (dh s0 (pub k)).
   Proof.
-    intros k0 s0 k q s. split.
-    - apply inv_settled.
-      + apply inv_run; [reflexivity|apply inv_init].
-      + reflexivity.
-      + reflexivity.
-    - subst s. cbn. unfold key_session_sync, key_check_sync. cbn. rewrite is_synced_zero. reflexivity.
+    intros k0 s0 k q.
+    match goal with |- context [run ?h ?x] => set (s := run h x) end. cbv zeta.
+    assert (E : s = mkSt (mkC k (pub s0) (fill_shared zero_share (dh k (pub s0))) None)
+                         (mkS true s0 (fill_shared zero_share (dh s0 (pub k)))) None None false [] []).
+    { subst s. unfold Keys.run, init. cbn [fold_left]. cbn. unfold srv_handle. cbn.
+      unfold key_session_sync, key_check_sync. cbn. rewrite is_synced_zero. reflexivity. }
+    rewrite E. cbn. ands; try reflexivity.
+    unfold Keys.settled. cbn. ands; try reflexivity. rewrite dh_comm. reflexivity.
   Qed.
 
-  (* every sequence of re-keys (each complete or failing at the write), interleaved with any
-     traffic, from any settled state: the ends agree again, for every ECDH output *)
+  (* every sequence of re-keys (complete, failing at the write, interleaved with any traffic,
+     with re-registrations) from any settled state: whenever the client is idle and registered
+     the ends agree again -- for every ECDH output, of any length *)
   Theorem share_agree_rekey : forall h s,
-    settled s -> lossless h = true ->
+    settled s -> safe h s = true ->
     let s' := run h s in
     waiting s' = false -> s_reg (sv s') = true -> settled s'.
   Proof.
@@ -314,6 +404,7 @@ Section Agreement.
     settled s' /\
     c_share (cl s') = fill_shared (c_share (cl s)) (dh k (pub (s_priv (sv s)))) /\
     s_share (sv s') = fill_shared (s_share (sv s)) (dh (s_priv (sv s)) (pub k)) /\
+    c_priv (cl s') = k /\
     c_seen s' = deliver q (c_seen s).        (* the reply written under the copy of the old key is readable *)
   Proof.
     intros [[cp cpb cs cn] [sr sp ss] up dn w cseen sseen] k q S.
@@ -324,20 +415,33 @@ Section Agreement.
     assert (E : s' = mkSt (mkC k (pub sp) (fill_shared cs (dh k (pub sp))) None)
                           (mkS true sp (fill_shared cs (dh sp (pub k)))) None None false
                           (deliver (xor_op (xor_op q cs) cs) cseen) sseen).
-    { subst s'. unfold run. cbn [fold_left]. unfold step at 3. cbn.
+    { subst s'. unfold Keys.run. cbn [fold_left]. cbn.
       unfold srv_handle. cbn. rewrite zlist_eqb_refl. cbn. unfold key_check_sync. cbn. reflexivity. }
     rewrite E. cbn. rewrite xor_involution. ands; try reflexivity.
-    unfold settled. cbn. ands; try reflexivity. rewrite dh_comm. reflexivity.
+    unfold Keys.settled. cbn. ands; try reflexivity. rewrite dh_comm. reflexivity.
   Qed.
 
   (* a failed write of the announcement leaves both ends exactly where they were *)
   Theorem write_fail_reverts : forall s k,
     waiting s = false -> c_next (cl s) = None ->
     let s' := run [RekeySend k; WriteFail] s in
-    cl s' = cl s /\ sv s' = sv s /\ waiting s' = false /\ upw s' = None.
+    cl s' = cl s /\ sv s' = sv s /\ waiting s' = false /\ upw s' = None /\ dnw s' = None.
   Proof.
-    intros [[cp cpb cs cn] [sr sp ss] up dn w cseen sseen] k W N s'. cbn in *. subst w cn.
-    subst s'. cbn. repeat split.
+    intros [[cp cpb cs cn] [sr sp ss] up dn w cseen sseen] k W N.
+    cbn [cl sv upw dnw waiting c_next] in *. subst w cn.
+    unfold Keys.run. cbn. ands; reflexivity.
+  Qed.
+
+  (* a reply lost while NO announcement is pending changes no key either *)
+  Theorem reply_lost_harmless : forall s p,
+    waiting s = false -> c_next (cl s) = None ->
+    (let s' := run [DataSend p; ReplyLost] s in cl s' = cl s /\ sv s' = sv s /\ waiting s' = false) /\
+    (forall q, let s' := run [DataSend p; RekeyRecv q; ReplyLost] s in
+               cl s' = cl s /\ sv s' = sv s /\ waiting s' = false).
+  Proof.
+    intros [[cp cpb cs cn] [sr sp ss] up dn w cseen sseen] p W N.
+    cbn [cl sv upw dnw waiting c_next] in *. subst w cn.
+    split; [|intros q]; unfold Keys.run; cbn; unfold srv_handle; cbn; destruct sr; cbn; ands; reflexivity.
   Qed.
 
   (* under agreement each side's handler sees exactly what the other side sent *)
@@ -346,17 +450,19 @@ Section Agreement.
     let s' := run [DataSend p; RekeyRecv q; ReplyRecv] s in
     s_seen s' = deliver p (s_seen s) /\ c_seen s' = deliver q (c_seen s) /\ cl s' = cl s /\ sv s' = sv s.
   Proof.
-    intros [[cp cpb cs cn] [sr sp ss] up dn w cseen sseen] p q W R N A s'.
-    unfold agree in A. cbn in *. subst w sr cn ss.
-    subst s'. cbn. unfold srv_handle. cbn. rewrite !xor_involution. repeat split.
+    intros [[cp cpb cs cn] [sr sp ss] up dn w cseen sseen] p q W R N A.
+    unfold agree in A. cbn [cl sv upw dnw waiting c_next c_share s_reg s_share] in *. subst w sr cn ss.
+    unfold Keys.run. cbn. unfold srv_handle. cbn. unfold key_check_sync. cbn.
+    rewrite !xor_involution. ands; reflexivity.
   Qed.
 End Agreement.
 
-(* ---- what goes wrong when a reply is lost: explicit histories in the toy agreement ---- *)
+(* ---- what goes wrong when an acknowledgement is lost: explicit histories in the toy agreement ---- *)
 Lemma toy_comm : forall a b, toy_dh a (toy_pub b) = toy_dh b (toy_pub a).
 Proof. intros. unfold toy_dh, toy_pub. rewrite (Z.mul_comm a b). reflexivity. Qed.
 
-Definition toy_run := run toy_pub toy_dh.
+Definition toy_run := run toy_pub toy_dh false.
+Definition toy_run_merge := run toy_pub toy_dh true.      (* next() before the fix *)
 Definition toy_init := init toy_pub 0 7.
 Definition handshake : list (event Z) := [Hello 11; RekeyRecv []; HelloReply].
 Definition shares_differ (s : st Z Z) : bool := negb (zlist_eqb (c_share (cl s)) (s_share (sv s))).
@@ -372,24 +478,70 @@ Definition undelivered : list (event Z) :=
 Definition undelivered_later : list (event Z) :=
   undelivered ++ [RekeySend 17; RekeyRecv []; ReplyRecv; RekeySend 19; RekeyRecv []; ReplyRecv;
                   DataSend [1; 2; 3]; RekeyRecv [4; 5; 6]; ReplyRecv].
-(* (c) the announcement was merged into a Multi container: the server ignores it, the client swaps *)
+(* (c) BEFORE the fix: the announcement was merged into a Multi container: the server ignores it, the client swaps *)
 Definition batched : list (event Z) :=
   handshake ++ [BatchSend 13 [1; 2; 3]; RekeyRecv [4; 5; 6]; ReplyRecv].
+(* (d) the server forgot the client, the client registers again, the SvComplete with the server
+       key is lost: the client stays on the all-zero share (it sends in the clear), the server does not *)
+Definition reregister_lost : list (event Z) :=
+  handshake ++ [Forget 7; DataSend [1; 2; 3]; RekeyRecv []; Reregister 21; RekeyRecv []; ReplyLost;
+                DataSend [1; 2; 3]; RekeyRecv [4; 5; 6]; ReplyRecv].
+Definition reregister_lost_later : list (event Z) :=
+  reregister_lost ++ [RekeySend 17; RekeyRecv []; ReplyRecv; DataSend [1; 2; 3]; RekeyRecv [4; 5; 6]; ReplyRecv].
 
-Lemma agree_after_reply_lost_refuted :
-  (* (a) one garbled exchange *)
-  (let s := toy_run lost_after toy_init in
-   s_seen s <> [[1; 2; 3]] /\ c_seen s <> [[4; 5; 6]] /\ shares_differ s = false) /\
-  (* (b) the sender is NOT left on the old key, and the ends differ for good *)
-  (let s0 := toy_run handshake toy_init in
-   let s := toy_run undelivered toy_init in
-   waiting s = false /\ c_next (cl s) = None /\ shares_differ s = true /\
-   c_share (cl s) <> c_share (cl s0) /\ s_share (sv s) = s_share (sv s0) /\
-   shares_differ (toy_run undelivered_later toy_init) = true /\
-   s_seen (toy_run undelivered_later toy_init) <> [[1; 2; 3]; [1; 2; 3]]) /\
-  (* (c) batched announcement *)
+(* (a) one garbled exchange *)
+Lemma reply_lost_after_processing_refuted :
+  let s := toy_run lost_after toy_init in
+  s_seen s <> [[1; 2; 3]] /\ c_seen s <> [[4; 5; 6]] /\ shares_differ s = false /\
+  safe toy_pub toy_dh false lost_after toy_init = false.
+Proof. cbv zeta. ands; try (vm_compute; reflexivity); vm_compute; intros H; discriminate H. Qed.
+
+(* (b) the sender is NOT left on the old key, and the ends differ for good *)
+Lemma announcement_lost_refuted :
+  let s0 := toy_run handshake toy_init in
+  let s := toy_run undelivered toy_init in
+  waiting s = false /\ c_next (cl s) = None /\ s_reg (sv s) = true /\ shares_differ s = true /\
+  c_share (cl s) <> c_share (cl s0) /\ s_share (sv s) = s_share (sv s0) /\
+  shares_differ (toy_run undelivered_later toy_init) = true /\
+  s_seen (toy_run undelivered_later toy_init) <> [[1; 2; 3]; [1; 2; 3]] /\
+  safe toy_pub toy_dh false undelivered toy_init = false.
+Proof. cbv zeta. ands; try (vm_compute; reflexivity); vm_compute; intros H; discriminate H. Qed.
+
+(* (c) regression witness for the repaired next(): with merge = true the same history leaves the
+       ends on different keys; with merge = false (the code now) it is an ordinary re-key *)
+Lemma batched_rekey_refuted_before_fix :
+  (let s := toy_run_merge batched toy_init in
+   waiting s = false /\ c_next (cl s) = None /\ s_reg (sv s) = true /\ s_seen s = [[1; 2; 3]] /\ shares_differ s = true) /\
   (let s := toy_run batched toy_init in
-   waiting s = false /\ c_next (cl s) = None /\ s_seen s = [[1; 2; 3]] /\ shares_differ s = true).
-Proof.
-  repeat split; try (vm_compute; reflexivity); vm_compute; intros H; discriminate H.
-Qed.
+   waiting s = false /\ c_next (cl s) = None /\ s_reg (sv s) = true /\ shares_differ s = false /\
+   c_share (cl s) <> c_share (cl (toy_run handshake toy_init))).
+Proof. cbv zeta. ands; try (vm_compute; reflexivity); vm_compute; intros H; discriminate H. Qed.
+
+(* (d) re-registration whose SvComplete is lost *)
+Lemma reregister_reply_lost_refuted :
+  let s := toy_run reregister_lost toy_init in
+  waiting s = false /\ s_reg (sv s) = true /\ shares_differ s = true /\ c_share (cl s) = zero_share /\
+  s_seen s <> [[1; 2; 3]] /\ shares_differ (toy_run reregister_lost_later toy_init) = true /\
+  safe toy_pub toy_dh false reregister_lost toy_init = false.
+Proof. cbv zeta. ands; try (vm_compute; reflexivity); vm_compute; intros H; discriminate H. Qed.
+
+(* non-vacuity material: a long admissible history in the toy agreement that exercises every event
+   (short and long ECDH outputs, write failure, harmless reply loss, server restart, re-registration) *)
+Definition busy_history : list (event Z) :=
+  handshake ++
+  [DataSend [9; 9]; RekeyRecv [8]; ReplyRecv;
+   RekeySend 13; RekeyRecv [1]; ReplyRecv;
+   RekeySend 5; WriteFail;
+   DataSend [7]; ReplyLost;
+   DataSend [7]; RekeyRecv [6]; ReplyLost;
+   BatchSend 23 [1; 2]; RekeyRecv []; ReplyRecv; DataSend [1; 2]; RekeyRecv []; ReplyRecv;
+   Forget 29; DataSend [3]; RekeyRecv []; Reregister 31; RekeyRecv []; HelloReply;
+   RekeySend 37; RekeyRecv [2]; ReplyRecv;
+   DataSend [4; 5]; RekeyRecv [6; 7]; ReplyRecv].
+
+Lemma busy_history_ok :
+  safe toy_pub toy_dh false busy_history toy_init = true /\
+  (let s := toy_run busy_history toy_init in
+   waiting s = false /\ s_reg (sv s) = true /\ shares_differ s = false /\ is_synced (c_share (cl s)) = true /\
+   c_seen s = [[6; 7]; [2]; [1]; [8]] /\ s_seen s = [[4; 5]; [1; 2]; [7]; [9; 9]]).
+Proof. cbv zeta. ands; vm_compute; reflexivity. Qed.
